@@ -149,6 +149,8 @@ def link_grammar(ctx, mutate=None, tag=""):
         if key not in G.G_REF:
             continue
         props = ("C05", "C02") if key[0] in ("literal", "weight", "return_statement", "term", "tuple", "op_term") else ("C02", "C07")
+        if key[0] in ("weight", "return_statement", "literal") or "weight" in key[0] or any("weight" in x.lower() for x in key[1]):
+            props = props + ("C03", "C10")        # the declared weights (value and order) reach the AST unchanged
         if fn is None:
             out.append(Obl(oid, FN + "." + key[0], "post", "action found in source", status=UNDECIDED, backend="extract", detail="no FunctionDef at line %s" % p["lineno"], props=props))
             continue
